@@ -359,6 +359,15 @@ Definition encode (fx : fixes) (s : sender) (t : mtype) (seq req max_chunk : Z) 
     end
   else Ok [new_chunk s t 1 seq req data].
 
+(* MessageWriter::write (core/comms/message_writer.rs, the server's writer), up to apply_security:
+   Chunker::encode(last_sent_sequence_number + 1, request_id, max_message_size, max_chunk_size, ..)
+   where max_chunk_size is the send buffer size negotiated for the connection in HEL / ACK
+   ([fixed] = true); before the fix the writer passed 0 = no limit ([fixed] = false).  The writer
+   secures each chunk into a buffer of negotiated size + 1024 bytes. *)
+Definition writer_chunks (fixed : bool) (fx : fixes) (s : sender) (t : mtype) (last_sent req negotiated : Z)
+           (data : bytes) : res (list bytes) :=
+  encode fx s t (last_sent + 1) req (if fixed then negotiated else 0) data.
+
 (* SecureChannel::apply_security for a chunk made by MessageChunk::new ([hs] = offset of the
    sequence header); the destination buffer is assumed large enough *)
 Definition apply_security (P : prims) (fx : fixes) (s : sender) (t : mtype) (plain : bytes) : res bytes :=
